@@ -70,6 +70,14 @@ def undo_renames(repo) -> dict[str, str]:
                 cands.append(n)
         same_mod = [n for n in cands if n.split(":")[0] == mod]
         pick = same_mod if len(same_mod) == 1 else cands if len(cands) == 1 and not same_mod else []
+        if not pick:
+            # renamed together with its parameters: the only function that vanished from this class / module and the only
+            # new one there, with the same number of parameters
+            van_here = [k2 for k2 in vanished if k2.split(":")[0] == mod and (k2.split(":")[1].rsplit(".", 1)[0] + "." if "." in k2.split(":")[1] else "") == prefix]
+            new_here = [n for n in fresh if n.split(":")[0] == mod and (n.split(":")[1].rsplit(".", 1)[0] + "." if "." in n.split(":")[1] else "") == prefix
+                        and "." not in n.split(":")[1][len(prefix):]]
+            if len(van_here) == 1 and len(new_here) == 1 and len(current[new_here[0]].params()) == len(sigs[k]):
+                pick = new_here
         if len(pick) == 1 and pick[0] not in pairs:
             pairs[pick[0]] = k
     if not pairs:
